@@ -279,9 +279,12 @@ impl CharRefTokenizer {
         tokenizer: &XmlTokenizer<Sink>,
         input: &BufferQueue,
     ) -> Status {
-        let Some(c) = tokenizer.get_char(input) else {
+        // peek + raw discard skips newline normalization, so that the name can be
+        // un-consumed without losing or doubling a line break
+        let Some(c) = tokenizer.peek(input) else {
             return Stuck;
         };
+        tokenizer.discard_raw_char(input);
         self.name_buf_mut().push_char(c);
         match data::NAMED_ENTITIES.get(&self.name_buf()[..]) {
             // We have either a full match or a prefix of one.
@@ -411,9 +414,12 @@ impl CharRefTokenizer {
         tokenizer: &XmlTokenizer<Sink>,
         input: &BufferQueue,
     ) -> Status {
-        let Some(c) = tokenizer.get_char(input) else {
+        // peek + raw discard skips newline normalization, so that the name can be
+        // un-consumed without losing or doubling a line break
+        let Some(c) = tokenizer.peek(input) else {
             return Stuck;
         };
+        tokenizer.discard_raw_char(input);
         self.name_buf_mut().push_char(c);
         match c {
             _ if c.is_ascii_alphanumeric() => return Progress,
